@@ -7,6 +7,7 @@ CONSTANTS
   Mins <- MinsAll
   ValClasses = {0, 1, 2, 3, 4}
   VModes = {0, 1, 2, 3}
+  Dists <- NoDists
   Orig = FALSE
   MaxReply = 7
   MaxInitLen = 3
